@@ -207,6 +207,10 @@ func (s YAMLSyntax) Delete(prefix, path resource.PropertyPath) error {
 		return YAMLSyntax{Node: s.Content[0]}.Delete(prefix, path)
 	}
 
+	if len(path) == 0 {
+		return errors.New("path must contain at least one element")
+	}
+
 	prefix = append(prefix, path[0])
 	switch s.Kind {
 	case yaml.SequenceNode:
